@@ -11,7 +11,8 @@
  *   reg <fac>                 log_type_register(fac, NULL)          (what a module does at start-up)
  *   regdef <fac> <target>     log_type_register(fac, target)        (a facility with a default target)
  *   load <file>               conf_read(file)  -- the REAL reload path, incl. hook delivery
- *   emit <fac> <sev> <id>     t = log_type_register(fac, NULL); log_message(t, sev, "probe %d", id)
+ *   emit <fac> <sev> <id> [<len>]  t = log_type_register(fac, NULL); log_message(t, sev, "probe %d", id); with <len> the
+ *                             message is "probe <id> xxxx..." padded with 'x' to <len> characters (long records)
  *                             sev = 0..5; sev 5 (fatal) is emitted from a forked child, because
  *                             log_vmessage() _exit(1)s after writing a fatal message
  *   reopen                    log_reopen()
@@ -41,7 +42,8 @@ static void begin(const char *cmd)
 int main(void)
 {
     char line[4096], a[1024], b[1024];
-    int sev, id, rc;
+    static char pad[4096];
+    int sev, id, rc, plen;
 
     setvbuf(stdout, NULL, _IOLBF, 0);
     ctype_init();
@@ -63,8 +65,18 @@ int main(void)
             begin("load");
             rc = conf_read(a);
             printf("{\"e\":\"end\",\"n\":%d,\"cmd\":\"load\",\"rc\":%d}\n", step, rc);
-        } else if (sscanf(line, "emit %1000s %d %d", a, &sev, &id) == 3 && sev >= 0 && sev < LOG_NUM_SEVERITIES) {
+        } else if ((plen = 0, sscanf(line, "emit %1000s %d %d %d", a, &sev, &id, &plen)) >= 3 && sev >= 0 && sev < LOG_NUM_SEVERITIES) {
             begin("emit");
+            pad[0] = '\0';
+            if (plen > 0 && plen < (int)sizeof(pad) - 32) {
+                int have = snprintf(pad, sizeof(pad), "probe %d", id);
+                int want = plen - have;
+                pad[0] = ' ';
+                if (want < 1)
+                    want = 1;
+                memset(pad + 1, 'x', want - 1);
+                pad[want] = '\0';
+            }
             if (sev == LOG_FATAL) {
                 pid_t pid;
                 int status = -1;
@@ -72,7 +84,7 @@ int main(void)
                 fflush(NULL);
                 pid = fork();
                 if (pid == 0) {
-                    log_message(log_type_register(a, NULL), LOG_FATAL, "probe %d", id);
+                    log_message(log_type_register(a, NULL), LOG_FATAL, "probe %d%s", id, pad);
                     _exit(99);          /* not reached: a fatal message ends the process with 1 */
                 }
                 if (pid < 0 || waitpid(pid, &status, 0) != pid)
@@ -80,7 +92,7 @@ int main(void)
                 printf("{\"e\":\"end\",\"n\":%d,\"cmd\":\"emit\",\"id\":%d,\"child\":%d}\n", step, id,
                        (status >= 0 && WIFEXITED(status)) ? WEXITSTATUS(status) : -1);
             } else {
-                log_message(log_type_register(a, NULL), (enum log_severity)sev, "probe %d", id);
+                log_message(log_type_register(a, NULL), (enum log_severity)sev, "probe %d%s", id, pad);
                 printf("{\"e\":\"end\",\"n\":%d,\"cmd\":\"emit\",\"id\":%d}\n", step, id);
             }
         } else if (!strncmp(line, "reopen", 6)) {
